@@ -17,9 +17,10 @@ PID = "C07"
 FILES = ["yamlpath/commands/yaml_paths.py", "yamlpath/common/searches.py", "yamlpath/yamlpath.py", "yamlpath/processor.py"]
 FUNCTIONS = ["yaml_paths.search_for_paths", "yaml_paths.yield_children", "yaml_paths.get_search_term",
              "Searches.search_matches", "Searches.search_anchor", "YAMLPath.escape_path_section",
-             "Processor.get_nodes (re-query of every reported path, both notations)"]
-STUBS = ["EYAMLProcessor is constructed but never decrypts (decrypt_eyaml=False)", "no argv / file loading (search_for_paths is "
-         "called directly on harness documents)"]
+             "Processor.get_nodes (re-query of every reported path, both notations)",
+             "yaml_paths.main/process_yaml_file/print_results (stream queries; condition shared with C16)"]
+STUBS = ["EYAMLProcessor is constructed but never decrypts (decrypt_eyaml=False)", "no file loading (search_for_paths is "
+         "called directly on harness documents; the stream queries run main() over a loader stub)"]
 OUTSIDE = ["regular-expression terms and symbolic terms (engine limits): operators with concrete terms",
            "alias shards are selector-driven (anchored scalars are C-constructed)"]
 ASSUMPTIONS = ["oracle: matching leaves/keys computed with the C12 reference comparison; re-resolution against the document itself"]
@@ -248,6 +249,13 @@ def shards(tier, seed):
                      kind="S", desc="anchored value under a (non-)matching key, alias elsewhere, key-name search on"))
     out.append(shard(PID, "merge_keys", "harness.c07", "merge_keys_ok(k)", [("k", "int")], ["0 <= k < 8"], family="alias", budget=600,
                      kind="S", desc="<<: merge keys under a hash, under a list and deeper x alias options x values/keys"))
+    for two, exc in ((False, False), (True, True)):
+        out.append(shard(PID, "stream/%s" % ("two_except" if two else "one"), "harness.c16",
+                         "paths_main(a, b, c, values, nofile, %r, %r, slash, 2)" % (two, exc),
+                         [("a", "int"), ("b", "int"), ("c", "int"), ("values", "bool"), ("nofile", "bool"), ("slash", "bool")],
+                         ["0 <= a <= 1 and 1 <= b <= 2 and 1 <= c <= 2"], family="stream", budget=1800,
+                         desc="yaml-paths main()/process_yaml_file over a 2-document stream (loader stub): every document's matches are "
+                              "reported, once each, also when their paths are spelled like an earlier document's"))
     out.append(shard(PID, "expression", "harness.c07", "expression_ok(k)", [("k", "int")], ["0 <= k < %d" % N_EXPR],
                      family="expression", budget=300, kind="S", desc="get_search_term on %d operator expressions" % N_EXPR))
     return out
